@@ -8,7 +8,7 @@
 //!
 //! Deliberately absent: `ZonedDateTime::microsecond()` / `nanosecond()` (both forward to
 //! `millisecond_with_provider` on the pinned tree: a mis-wired wrapper is C19's subject, not a
-//! history/schedule dependence) and `Now::*` (needs feature `sys`, reads the clock).
+//! history/schedule dependence) `Now::*` is compared by verdict only (its reading depends on the clock).
 
 use crate::conv::{diff_settings, duration_fields, err_str, iso, round_options};
 use crate::run::guard;
@@ -171,6 +171,9 @@ pub enum Call {
     InstantStr { t: T, zone: Option<String> },
     /// `PlainDateTime::try_new(..)` then `.to_zoned_date_time(zone, dis)`
     PdtToZdt { y: i32, mo: u8, d: u8, h: u8, mi: u8, sec: u8, zone: String, dis: u8 },
+    /// `Now::plain_datetime_iso` / `plain_date_iso` / `plain_time_iso` (which = 0, 1, 2) in a zone: the reading
+    /// depends on the clock, so only its verdict is compared (`now=ok` or the error)
+    Now { which: u8, zone: String },
     /// fault injection (feature verif_hooks): panics while holding the provider lock
     InjectPanic,
 }
@@ -196,7 +199,7 @@ impl Call {
         }
         match self {
             Call::ZdtFromStr { s, .. } => annot(s),
-            Call::ZdtGet { zone, .. } | Call::ZdtAdd { zone, .. } | Call::ZdtWithTime { zone, .. } | Call::PdtToZdt { zone, .. } => {
+            Call::ZdtGet { zone, .. } | Call::ZdtAdd { zone, .. } | Call::ZdtWithTime { zone, .. } | Call::PdtToZdt { zone, .. } | Call::Now { zone, .. } => {
                 vec![zone.clone()]
             }
             Call::ZdtDiff { zone, zone2, .. } => vec![zone.clone(), zone2.clone()],
@@ -218,6 +221,7 @@ impl Call {
             Call::DurCompare { .. } => "call:dur-compare",
             Call::InstantStr { .. } => "call:instant-str",
             Call::PdtToZdt { .. } => "call:pdt-to-zdt",
+            Call::Now { .. } => "call:now",
             Call::InjectPanic => "call:inject-panic",
         }
     }
@@ -269,6 +273,8 @@ pub trait Api {
     fn dur_compare(&self, a: &Duration, b: &Duration, r: Option<RelativeTo>) -> TemporalResult<Ordering>;
     fn instant_str(&self, i: &Instant, tz: Option<&TimeZone>) -> TemporalResult<String>;
     fn pdt_to_zdt(&self, p: &PlainDateTime, tz: &TimeZone, d: Disambiguation) -> TemporalResult<ZonedDateTime>;
+    /// Now::plain_datetime_iso / plain_date_iso / plain_time_iso; Ok(()) when a reading was produced
+    fn now(&self, which: u8, tz: TimeZone) -> TemporalResult<()>;
 }
 
 /// The convenience API: every method goes through `TZ_PROVIDER`.
@@ -399,6 +405,14 @@ impl Api for Global {
     }
     fn pdt_to_zdt(&self, p: &PlainDateTime, tz: &TimeZone, d: Disambiguation) -> TemporalResult<ZonedDateTime> {
         p.to_zoned_date_time(tz, d)
+    }
+    fn now(&self, which: u8, tz: TimeZone) -> TemporalResult<()> {
+        use temporal_rs::Now;
+        match which % 3 {
+            0 => Now::plain_datetime_iso(Some(tz)).map(|_| ()),
+            1 => Now::plain_date_iso(Some(tz)).map(|_| ()),
+            _ => Now::plain_time_iso(Some(tz)).map(|_| ()),
+        }
     }
 }
 
@@ -535,6 +549,15 @@ impl<P: TimeZoneProvider> Api for WithProv<'_, P> {
     }
     fn pdt_to_zdt(&self, p: &PlainDateTime, tz: &TimeZone, d: Disambiguation) -> TemporalResult<ZonedDateTime> {
         p.to_zoned_date_time_with_provider(tz, d, self.0)
+    }
+    fn now(&self, which: u8, tz: TimeZone) -> TemporalResult<()> {
+        use temporal_rs::Now;
+        let t = temporal_rs::time::EpochNanoseconds::try_from(Now::instant()?.as_i128())?;
+        match which % 3 {
+            0 => Now::plain_datetime_iso_with_provider_and_system_info(t, tz, self.0).map(|_| ()),
+            1 => Now::plain_date_iso_with_provider_and_system_info(t, tz, self.0).map(|_| ()),
+            _ => Now::plain_time_iso_with_provider_and_system_info(t, tz, self.0).map(|_| ()),
+        }
     }
 }
 
@@ -674,6 +697,11 @@ fn try_exec(api: &impl Api, c: &Call) -> Result<String, TemporalError> {
             let p = PlainDateTime::try_new(*y, *mo, *d, *h, *mi, *sec, 0, 0, 0, iso())?;
             let tz = tz_of(zone)?;
             zdt_str(&api.pdt_to_zdt(&p, &tz, disamb(*dis))?)
+        }
+        Call::Now { which, zone } => {
+            let tz = tz_of(zone)?;
+            api.now(*which, tz)?;
+            "now=ok".to_string()
         }
         Call::InjectPanic => unreachable!("InjectPanic is executed by exec_global / expected_of"),
     })
